@@ -114,7 +114,7 @@ X01_Holds(types, roots, tnodes, tedges, cedges) ==
 (* C12: listeners                                                            *)
 
 \* emits : <<[name |-> event name, receiver |-> class, frames |-> <<enclosing frames>>, placed |-> tail form, lit |-> BOOLEAN]>>
-DocumentedReceivers == {"app", "window", "webview", "self_app", "self_window", "method_result"}
+DocumentedReceivers == {"app", "window", "webview", "self_app", "self_window", "method_result", "global_method"}
 \* The call sits in a tail form (`placed`) inside a path of enclosing frames (outermost first).  Documented by
 \* the analyser / the property: expression statement (with or without the trailing semicolon), let initialiser,
 \* if/else branches (incl. `else if` chains and `if let`), match arms, loop/while/for bodies, nested (labelled)
